@@ -3,6 +3,8 @@ import json, glob, os, re
 V = os.path.dirname(os.path.dirname(os.path.abspath(__file__)))
 def key(d):
     m = re.match(r'C(\d+)-(\d+)', os.path.basename(d)); return (int(m.group(1)), int(m.group(2)))
+import sys, io
+_out = io.StringIO(); _real = sys.stdout; sys.stdout = _out
 print('| seed | files changed | what it breaks / needs (seeder\'s words, abridged) | check result |')
 print('|---|---|---|---|')
 for d in sorted(glob.glob(os.path.join(V, 'seeded', 'C*-*')), key=key):
@@ -16,3 +18,12 @@ for d in sorted(glob.glob(os.path.join(V, 'seeded', 'C*-*')), key=key):
         res = ' '.join(str(cr).replace('|', '/').split())[:200]
     files = ', '.join(os.path.basename(f) for f in m.get('files_changed', [])) or '_reaction.py'
     print(f"| {os.path.basename(d)} | {files} | {br} | {res} |")
+
+sys.stdout = _real
+table = _out.getvalue()
+if '--write' in sys.argv:
+    dp = os.path.join(V, 'DESIGN.md'); d = open(dp).read()
+    a = d.index('<!-- SEEDTABLE:BEGIN -->') + len('<!-- SEEDTABLE:BEGIN -->\n'); b = d.index('<!-- SEEDTABLE:END -->')
+    open(dp, 'w').write(d[:a] + table + d[b:])
+else:
+    print(table)
